@@ -1295,3 +1295,61 @@ func HarnessC03SharedParameters() {
 	verifAssert(got.valid == !dup, "shared-parameters-unique-by-name-and-location")
 	verifReach("end")
 }
+
+// HarnessC07SchemaItems: array schemas of a body parameter and of a response in every items shape
+// (none, single schema, tuple, empty tuple, array of arrays ending in a tuple, invalid pattern on the
+// element): the items rule returns normally, and reports an error exactly when some array level
+// declares no items (or a pattern does not compile).
+func HarnessC07SchemaItems() {
+	str := schemaOfType("string")
+	if verifBool() {
+		str.Pattern = "("
+	}
+	badPattern := str.Pattern == "("
+	arr := func(items *spec.SchemaOrArray) spec.Schema {
+		s := schemaOfType("array")
+		s.Items = items
+		return s
+	}
+	var sch spec.Schema
+	want := true
+	switch verifChoose(6) {
+	case 0:
+		sch = arr(nil)
+		want = false
+	case 1:
+		sch = arr(&spec.SchemaOrArray{Schema: &str})
+		want = !badPattern
+	case 2:
+		sch = arr(&spec.SchemaOrArray{Schemas: []spec.Schema{str, schemaOfType("number")}})
+	case 3:
+		sch = arr(&spec.SchemaOrArray{Schemas: []spec.Schema{}})
+		want = false
+	case 4:
+		inner := arr(&spec.SchemaOrArray{Schemas: []spec.Schema{str}})
+		sch = arr(&spec.SchemaOrArray{Schema: &inner})
+	default:
+		inner := arr(nil)
+		sch = arr(&spec.SchemaOrArray{Schema: &inner})
+		want = false
+	}
+	op := &spec.Operation{}
+	op.ID = "op"
+	op.Responses = &spec.Responses{}
+	if verifBool() {
+		op.Parameters = []spec.Parameter{*spec.BodyParam("b", &sch)}
+	} else {
+		resp := spec.Response{}
+		resp.Description = "ok"
+		resp.Schema = &sch
+		op.Responses.StatusCodeResponses = map[int]spec.Response{200: resp}
+	}
+	ops := map[string]map[string]*spec.Operation{"POST": {"/p": op}}
+	s := newSpecHarnessValidator(&spec.Swagger{}, ops, verifBool(), true)
+	got := outcomeOfResult(s.validateItems())
+	verifObserve("valid", got.valid)
+	if verifChecking("C03") {
+		verifAssert(got.valid == want, "array-schemas-declare-items")
+	}
+	verifReach("end")
+}
